@@ -198,7 +198,7 @@ theorem mateTraits_exact (ts1 ts2 nt : List (Trait W)) (h : mateTraits ts1 ts2 =
 theorem matePrologue_exact (g og : Genome W) (nt : List (Trait W)) (t0 : Option Int) (nodes : List Node)
     (h : matePrologue g og = .ok (nt, t0, nodes)) :
     g.traits.length = og.traits.length ∧ mateTraits g.traits og.traits = .ok nt ∧
-    ioNodes nt t0 og.nodes [] = .ok nodes := by
+    ioNodes nt t0 og.nodes [] = .ok nodes ∧ t0 = g.traits.head?.map (·.id) := by
   unfold matePrologue at h
   split at h
   · cases h
@@ -214,7 +214,7 @@ theorem matePrologue_exact (g og : Genome W) (nt : List (Trait W)) (t0 : Option 
         · rename_i nodes' hio
           simp only [Except.ok.injEq, Prod.mk.injEq] at h
           obtain ⟨rfl, rfl, rfl⟩ := h
-          exact ⟨by simpa using hlen, hmt, hio⟩
+          exact ⟨by simpa using hlen, hmt, hio, rfl⟩
 
 /-! ### the copies of the second parent's input/bias/output nodes -/
 
@@ -621,5 +621,382 @@ theorem nodeInv_start (g og : Genome W) (io : List Node) (nt : List (Trait W)) (
   rcases r2 m hm with h' | ⟨n, hnm, _, tr, rfl⟩
   · simp at h'
   · exact ⟨n, Or.inr hnm, rfl, rfl, rfl⟩
+
+/-! ### the single-point crossover as a plan over the two gene lists -/
+
+/-- where a child gene of the single-point crossover comes from: a copy of gene `x` of the parent with fewer genes,
+    the average of the matching genes `x` (fewer genes) and `y` (more genes), or a copy of gene `y` of the parent with
+    more genes -/
+inductive Origin (W : Type) where
+  | short (x : Gene W)
+  | mean (x y : Gene W)
+  | long (y : Gene W)
+
+def Origin.link : Origin W → Int × Int × Bool
+  | .short x => x.link
+  | .mean x _ => x.link
+  | .long y => y.link
+
+def Origin.inn : Origin W → Int
+  | .short x => x.inn
+  | .mean x _ => x.inn
+  | .long y => y.inn
+
+/-- the alignment the single-point crossover performs on the two gene lists alone (no nodes, traits, randomness):
+    `xs` = rest of the parent with fewer genes, `ys` = rest of the other, `gc` = genes of `xs`' parent consumed so far,
+    `cp` = the crossing point, `started` = a gene has been chosen before.
+    The walk ends with `ys`.  Matching genes: before the point from `xs`, at the point averaged, after it from `ys`.
+    A gene only in `xs`: taken before the point, afterwards never (the `xs` pointer stays on it and every further gene
+    of `ys` is taken).  A gene only in `ys` that lies below the current `xs` gene is skipped (before anything was
+    chosen the walk stops there - known finding K1). -/
+def spPlan (cp : Nat) : List (Gene W) → List (Gene W) → Nat → Bool → List (Origin W)
+  | _, [], _, _ => []
+  | [], y :: ys, gc, _ => .long y :: spPlan cp [] ys gc true
+  | x :: xs, y :: ys, gc, started =>
+    if x.inn = y.inn then
+      (if gc < cp then .short x else if gc > cp then .long y else .mean x y) :: spPlan cp xs ys (gc + 1) true
+    else if x.inn < y.inn then
+      if gc < cp then .short x :: spPlan cp xs (y :: ys) (gc + 1) true
+      else .long y :: spPlan cp (x :: xs) ys gc true
+    else if started then spPlan cp (x :: xs) ys gc started
+    else []
+termination_by l1 l2 => l1.length + l2.length
+
+/-- the same-link conflict check: an origin whose link is already in the child is dropped -/
+def spKeep : List (Int × Int × Bool) → List (Origin W) → List (Origin W)
+  | _, [] => []
+  | seen, o :: os => if o.link ∈ seen then spKeep seen os else o :: spKeep (seen ++ [o.link]) os
+
+/-- the child gene `c` realises an origin -/
+def Realises (nt : List (Trait W)) (t0 : Option Int) (c : Gene W) : Origin W → Prop
+  | .short x => CopyOf nt t0 c x
+  | .mean x y => AvgOf nt t0 x y c
+  | .long y => CopyOf nt t0 c y
+
+theorem any_sameLink_iff (l : List (Gene W)) (g : Gene W) :
+    l.any (·.sameLink g) = true ↔ g.link ∈ l.map (·.link) := by
+  rw [List.any_eq_true, List.mem_map]
+  constructor
+  · rintro ⟨a, ha, hs⟩; exact ⟨a, ha, (sameLink_iff a g).mp hs⟩
+  · rintro ⟨a, ha, hs⟩; exact ⟨a, ha, (sameLink_iff a g).mpr hs⟩
+
+/-- one "add the chosen gene" step against the plan -/
+theorem keep_step (nt : List (Trait W)) (t0 : Option Int) (acc acc1 : MateAcc W) (c : Chosen W) (o : Origin W)
+    (rest : List (Origin W)) (he : addChosen nt t0 acc c false = .ok acc1) (hl : c.gene.link = o.link)
+    (hreal : ∀ tr, childTraitRef nt t0 c.gene.trait = .ok tr →
+      Realises nt t0 { c.gene with trait := tr, en := if false then false else c.gene.en } o)
+    (news : List (Gene W)) (hal : Aligned (Realises nt t0) news (spKeep (acc1.genes.map (·.link)) rest)) :
+    ∃ news', acc1.genes ++ news = acc.genes ++ news' ∧
+      Aligned (Realises nt t0) news' (spKeep (acc.genes.map (·.link)) (o :: rest)) := by
+  rcases addChosen_exact nt t0 acc acc1 c false he with ⟨hany, rfl⟩ | ⟨hany, sn, dn, n1, tr, _, _, _, _, htr, hg⟩
+  · refine ⟨news, rfl, ?_⟩
+    have : o.link ∈ acc1.genes.map (·.link) := by rw [← hl]; exact (any_sameLink_iff _ _).mp hany
+    simp only [spKeep, this, ↓reduceIte]; exact hal
+  · have hnot : o.link ∉ acc.genes.map (·.link) := by
+      rw [← hl]; intro hm
+      have := (any_sameLink_iff _ _).mpr hm
+      rw [hany] at this; cases this
+    refine ⟨({ c.gene with trait := tr, en := if false then false else c.gene.en } : Gene W) :: news, by rw [hg]; simp, ?_⟩
+    simp only [spKeep, hnot, ↓reduceIte]
+    refine Aligned.cons (hreal tr htr) ?_
+    have e : acc1.genes.map (·.link) = acc.genes.map (·.link) ++ [o.link] := by
+      rw [hg, List.map_append, ← hl]; rfl
+    rw [← e]; exact hal
+
+omit [Scalar W] in
+theorem real_copy (nt : List (Trait W)) (t0 : Option Int) (x : Gene W) (tr : Option Int)
+    (h : childTraitRef nt t0 x.trait = .ok tr) :
+    CopyOf nt t0 ({ x with trait := tr, en := if false then false else x.en } : Gene W) x := ⟨tr, h, rfl⟩
+
+/-- **the single-point walk realises the plan**: the genes it appends are, one for one and in order, realisations of
+    the plan's origins that survive the same-link conflict check -/
+theorem singlePointWalk_plan (q1 q2 : Genome W) (nt : List (Trait W)) (t0 : Option Int) (cp : Nat)
+    (xs ys : List (Gene W)) (gc : Nat) (last : Option (Chosen W)) (acc acc' : MateAcc W) (rs rs' : List Nat)
+    (h : singlePointWalk q1 q2 nt t0 cp xs ys gc last acc rs = .ok (acc', rs')) (hc : Consistent xs ys) :
+    ∃ news, acc'.genes = acc.genes ++ news ∧
+      Aligned (Realises nt t0) news (spKeep (acc.genes.map (·.link)) (spPlan cp xs ys gc last.isSome)) := by
+  fun_induction singlePointWalk q1 q2 nt t0 cp xs ys gc last acc rs
+  all_goals try (cases h; done)
+  case case1 l _ _ acc rs =>
+    cases h
+    refine ⟨[], by simp, ?_⟩
+    cases l <;> simp only [spPlan, spKeep] <;> exact Aligned.nil
+  case case3 y ys gc l acc rs c acc1 he ih =>
+    obtain ⟨news, hn, hal⟩ := ih h (by intro a ha; cases ha)
+    obtain ⟨news', e, hal'⟩ := keep_step nt t0 acc acc1 c (.long y) _ he rfl (fun tr htr => real_copy nt t0 y tr htr) news hal
+    refine ⟨news', by rw [hn, e], ?_⟩
+    rw [spPlan]; exact hal'
+  case case5 x xs y ys gc l acc rs heq hlt c acc1 he ih =>
+    obtain ⟨news, hn, hal⟩ := ih h (fun a ha b hb => hc a (by simp [ha]) b (by simp [hb]))
+    obtain ⟨news', e, hal'⟩ := keep_step nt t0 acc acc1 c (.short x) _ he rfl (fun tr htr => real_copy nt t0 x tr htr) news hal
+    refine ⟨news', by rw [hn, e], ?_⟩
+    rw [spPlan]; simp only [heq, ↓reduceIte, hlt]; exact hal'
+  case case7 x xs y ys gc l acc rs heq hnlt hgt c acc1 he ih =>
+    obtain ⟨news, hn, hal⟩ := ih h (fun a ha b hb => hc a (by simp [ha]) b (by simp [hb]))
+    obtain ⟨news', e, hal'⟩ := keep_step nt t0 acc acc1 c (.long y) _ he rfl (fun tr htr => real_copy nt t0 y tr htr) news hal
+    refine ⟨news', by rw [hn, e], ?_⟩
+    rw [spPlan]; simp only [heq, ↓reduceIte, hnlt, hgt]; exact hal'
+  case case10 x xs y ys gc l acc rs heq hnlt hngt c rs1 hav acc1 he ih =>
+    obtain ⟨news, hn, hal⟩ := ih h (fun a ha b hb => hc a (by simp [ha]) b (by simp [hb]))
+    have hp := avgChosen_exact q1 q2 x y c rs rs1 hav
+    have hxy : x.link = y.link := hc x (by simp) y (by simp) heq
+    obtain ⟨news', e, hal'⟩ := keep_step nt t0 acc acc1 c (.mean x y) _ he (hp.link_eq hxy)
+      (fun tr htr => avgOf_of_pre nt t0 hp tr htr) news hal
+    refine ⟨news', by rw [hn, e], ?_⟩
+    rw [spPlan]; simp only [heq, ↓reduceIte, hnlt, hngt]; exact hal'
+  case case12 x xs y ys gc l acc rs hne hlt hgc c acc1 he ih =>
+    obtain ⟨news, hn, hal⟩ := ih h (fun a ha b hb => hc a (by simp [ha]) b hb)
+    obtain ⟨news', e, hal'⟩ := keep_step nt t0 acc acc1 c (.short x) _ he rfl (fun tr htr => real_copy nt t0 x tr htr) news hal
+    refine ⟨news', by rw [hn, e], ?_⟩
+    rw [spPlan]; simp only [hne, ↓reduceIte, hlt, hgc]; exact hal'
+  case case14 x xs y ys gc l acc rs hne hlt hgc c acc1 he ih =>
+    obtain ⟨news, hn, hal⟩ := ih h (fun a ha b hb => hc a ha b (by simp [hb]))
+    obtain ⟨news', e, hal'⟩ := keep_step nt t0 acc acc1 c (.long y) _ he rfl (fun tr htr => real_copy nt t0 y tr htr) news hal
+    refine ⟨news', by rw [hn, e], ?_⟩
+    rw [spPlan]; simp only [hne, ↓reduceIte, hlt, hgc]; exact hal'
+  case case15 x xs y ys gc acc rs hne hnlt =>
+    cases h
+    refine ⟨[], by simp, ?_⟩
+    rw [spPlan]; simp only [hne, ↓reduceIte, hnlt, Option.isSome_none, Bool.false_eq_true, spKeep]; exact Aligned.nil
+  case case16 x xs y ys gc acc rs hne hnlt l ih =>
+    obtain ⟨news, hn, hal⟩ := ih h (fun a ha b hb => hc a ha b (by simp [hb]))
+    refine ⟨news, hn, ?_⟩
+    rw [spPlan]; simp only [hne, ↓reduceIte, hnlt, Option.isSome_some]; exact hal
+
+/-! ### what the plan contains -/
+
+/-- position of an origin relative to the crossing point `cp`; `l1` = genes of the parent with fewer genes,
+    `ys` = genes of the other parent:
+    a copied gene of `l1` is one of its first `cp` genes; the averaged gene is gene number `cp` of `l1` and a gene of `ys`
+    with the same innovation number; a copied gene of `ys` has a larger innovation number than each of the first
+    `cp + 1` genes of `l1` -/
+def OriginOk (cp : Nat) (l1 ys : List (Gene W)) : Origin W → Prop
+  | .short x => ∃ k, k < cp ∧ l1[k]? = some x
+  | .mean x y => l1[cp]? = some x ∧ y ∈ ys ∧ x.inn = y.inn
+  | .long y => y ∈ ys ∧ ∀ x ∈ l1.take (cp + 1), x.inn < y.inn
+
+omit [Scalar W] in
+theorem OriginOk.mono {cp : Nat} {l1 ys ys' : List (Gene W)} {o : Origin W} (h : OriginOk cp l1 ys o)
+    (hsub : ∀ y ∈ ys, y ∈ ys') : OriginOk cp l1 ys' o := by
+  cases o with
+  | short x => exact h
+  | mean x y => exact ⟨h.1, hsub y h.2.1, h.2.2⟩
+  | long y => exact ⟨hsub y h.1, h.2⟩
+
+omit [Scalar W] in
+theorem take_pre_lt (cp : Nat) (pre rest : List (Gene W)) (hlen : cp + 1 ≤ pre.length) :
+    ∀ x ∈ (pre ++ rest).take (cp + 1), x ∈ pre := by
+  intro x hx
+  rw [List.take_append_of_le_length hlen] at hx
+  exact List.mem_of_mem_take hx
+
+omit [Scalar W] in
+theorem take_pre_cons (cp : Nat) (pre : List (Gene W)) (x0 : Gene W) (rest : List (Gene W)) (hlen : cp ≤ pre.length) :
+    ∀ x ∈ (pre ++ x0 :: rest).take (cp + 1), x ∈ pre ∨ x = x0 := by
+  intro x hx
+  have e : pre ++ x0 :: rest = (pre ++ [x0]) ++ rest := by simp
+  rw [e, List.take_append_of_le_length (by simp; omega)] at hx
+  have := List.mem_of_mem_take hx
+  simpa using this
+
+omit [Scalar W] in
+/-- **soundness of the plan** (sorted gene lists): every origin sits on its side of the crossing point -/
+theorem spPlan_sound (cp : Nat) (pre xs ys : List (Gene W)) (gc : Nat) (st : Bool)
+    (hs1 : GenesSorted xs) (hs2 : GenesSorted ys) (hlen : pre.length = gc)
+    (hpre : ∀ p ∈ pre, ∀ y ∈ ys, p.inn < y.inn) :
+    ∀ o ∈ spPlan cp xs ys gc st, OriginOk cp (pre ++ xs) ys o := by
+  fun_induction spPlan cp xs ys gc st generalizing pre
+  case case1 => intro o ho; simp at ho
+  case case2 y ys gc st ih =>
+    intro o ho
+    rcases List.mem_cons.mp ho with rfl | ho
+    · refine ⟨by simp, fun x hx => ?_⟩
+      simp only [List.append_nil] at hx
+      exact hpre x (List.mem_of_mem_take hx) y (by simp)
+    · exact (ih pre (by simp [GenesSorted]) (C01.sorted_cons hs2).1 hlen (fun p hp z hz => hpre p hp z (by simp [hz])) o ho).mono
+        (fun z hz => by simp [hz])
+  case case3 x xs y ys gc st heq ih =>
+    intro o ho
+    have hx0 : (pre ++ x :: xs)[gc]? = some x := by rw [← hlen]; simp
+    rcases List.mem_cons.mp ho with rfl | ho
+    · split
+      · rename_i hlt; exact ⟨gc, hlt, hx0⟩
+      · rename_i hnlt
+        split
+        · rename_i hgt
+          refine ⟨by simp, fun z hz => ?_⟩
+          exact hpre z (take_pre_lt cp pre _ (by omega) z hz) y (by simp)
+        · rename_i hngt
+          have : gc = cp := by omega
+          subst this
+          exact ⟨hx0, by simp, heq⟩
+    · have e : (pre ++ [x]) ++ xs = pre ++ x :: xs := by simp
+      have := ih (pre ++ [x]) (C01.sorted_cons hs1).1 (C01.sorted_cons hs2).1 (by simp [hlen])
+        (by
+          intro p hp z hz
+          have hyz := (C01.sorted_cons hs2).2 z hz
+          rcases List.mem_append.mp hp with hp | hp
+          · exact hpre p hp z (by simp [hz])
+          · simp only [List.mem_singleton] at hp; subst hp; omega) o ho
+      rw [e] at this
+      exact this.mono (fun z hz => by simp [hz])
+  case case4 x xs y ys gc st hne hlt hgc ih =>
+    intro o ho
+    have hx0 : (pre ++ x :: xs)[gc]? = some x := by rw [← hlen]; simp
+    rcases List.mem_cons.mp ho with rfl | ho
+    · exact ⟨gc, hgc, hx0⟩
+    · have e : (pre ++ [x]) ++ xs = pre ++ x :: xs := by simp
+      have := ih (pre ++ [x]) (C01.sorted_cons hs1).1 hs2 (by simp [hlen])
+        (by
+          intro p hp z hz
+          rcases List.mem_append.mp hp with hp | hp
+          · exact hpre p hp z hz
+          · simp only [List.mem_singleton] at hp; subst hp
+            rcases List.mem_cons.mp hz with rfl | hz'
+            · exact hlt
+            · have := (C01.sorted_cons hs2).2 z hz'; omega) o ho
+      rw [e] at this
+      exact this
+  case case5 x xs y ys gc st hne hlt hgc ih =>
+    intro o ho
+    rcases List.mem_cons.mp ho with rfl | ho
+    · refine ⟨by simp, fun z hz => ?_⟩
+      rcases take_pre_cons cp pre x xs (by omega) z hz with hz | rfl
+      · exact hpre z hz y (by simp)
+      · exact hlt
+    · exact (ih pre hs1 (C01.sorted_cons hs2).1 hlen (fun p hp z hz => hpre p hp z (by simp [hz])) o ho).mono
+        (fun z hz => by simp [hz])
+  case case6 x xs y ys gc hne hnlt ih =>
+    intro o ho
+    exact (ih pre hs1 (C01.sorted_cons hs2).1 hlen (fun p hp z hz => hpre p hp z (by simp [hz])) o ho).mono
+      (fun z hz => by simp [hz])
+  case case7 x xs y ys gc st hne hnlt hst =>
+    intro o ho
+    simp at ho
+
+omit [Scalar W] in
+/-- **every matching pair is in the plan** (sorted gene lists; a gene has been chosen before, or the first gene of the
+    shorter list does not come after the first gene of the longer one): for `x` at position `k` of `xs` and `y` in `ys`
+    with the same innovation number the plan holds the copy of `x` when `gc + k` lies before the crossing point, their
+    average when it is the crossing point, and the copy of `y` when it lies behind -/
+theorem spPlan_matched (cp : Nat) (xs ys : List (Gene W)) (gc : Nat) (st : Bool)
+    (hs1 : GenesSorted xs) (hs2 : GenesSorted ys)
+    (hst : st = true ∨ ∀ x0 ∈ xs.head?, ∀ y0 ∈ ys.head?, x0.inn ≤ y0.inn)
+    (k : Nat) (x y : Gene W) (hx : xs[k]? = some x) (hy : y ∈ ys) (heq : x.inn = y.inn) :
+    (gc + k < cp → Origin.short x ∈ spPlan cp xs ys gc st) ∧
+    (gc + k = cp → Origin.mean x y ∈ spPlan cp xs ys gc st) ∧
+    (gc + k > cp → Origin.long y ∈ spPlan cp xs ys gc st) := by
+  fun_induction spPlan cp xs ys gc st generalizing k
+  case case1 => cases hy
+  case case2 => simp at hx
+  case case3 x0 xs y0 ys gc st heq0 ih =>
+    have hys := C01.sorted_cons hs2
+    have hxs := C01.sorted_cons hs1
+    cases k with
+    | zero =>
+      simp only [List.getElem?_cons_zero, Option.some.injEq] at hx
+      subst hx
+      have : y = y0 := by
+        rcases List.mem_cons.mp hy with rfl | hy'
+        · rfl
+        · have := hys.2 y hy'; omega
+      subst this
+      refine ⟨fun h => ?_, fun h => ?_, fun h => ?_⟩
+      · simp only [Nat.add_zero] at h; simp [h]
+      · simp only [Nat.add_zero] at h; subst h; simp
+      · simp only [Nat.add_zero] at h
+        have h1 : ¬ gc < cp := by omega
+        simp [h1, h]
+    | succ k =>
+      simp only [List.getElem?_cons_succ] at hx
+      have hxm : x ∈ xs := List.mem_of_getElem? hx
+      have hy' : y ∈ ys := by
+        rcases List.mem_cons.mp hy with rfl | hy'
+        · have := hxs.2 x hxm; omega
+        · exact hy'
+      obtain ⟨a, b, c⟩ := ih hxs.1 hys.1 (Or.inl rfl) k hx hy'
+      refine ⟨fun h => ?_, fun h => ?_, fun h => ?_⟩
+      · exact List.mem_cons_of_mem _ (a (by omega))
+      · exact List.mem_cons_of_mem _ (b (by omega))
+      · exact List.mem_cons_of_mem _ (c (by omega))
+  case case4 x0 xs y0 ys gc st hne hlt hgc ih =>
+    have hys := C01.sorted_cons hs2
+    have hxs := C01.sorted_cons hs1
+    cases k with
+    | zero =>
+      simp only [List.getElem?_cons_zero, Option.some.injEq] at hx
+      subst hx
+      exfalso
+      rcases List.mem_cons.mp hy with rfl | hy'
+      · exact hne heq
+      · have := hys.2 y hy'; omega
+    | succ k =>
+      simp only [List.getElem?_cons_succ] at hx
+      obtain ⟨a, b, c⟩ := ih hxs.1 hs2 (Or.inl rfl) k hx hy
+      refine ⟨fun h => ?_, fun h => ?_, fun h => ?_⟩
+      · exact List.mem_cons_of_mem _ (a (by omega))
+      · exact List.mem_cons_of_mem _ (b (by omega))
+      · exact List.mem_cons_of_mem _ (c (by omega))
+  case case5 x0 xs y0 ys gc st hne hlt hgc ih =>
+    have hys := C01.sorted_cons hs2
+    have hxs := C01.sorted_cons hs1
+    rcases List.mem_cons.mp hy with rfl | hy'
+    · -- the matching gene of `ys` is taken now; `x` cannot be the head of `xs`
+      cases k with
+      | zero =>
+        simp only [List.getElem?_cons_zero, Option.some.injEq] at hx
+        subst hx; exact absurd heq hne
+      | succ k =>
+        refine ⟨fun h => by omega, fun h => by omega, fun _ => by simp⟩
+    · obtain ⟨a, b, c⟩ := ih hs1 hys.1 (Or.inl rfl) k hx hy'
+      exact ⟨fun h => List.mem_cons_of_mem _ (a h), fun h => List.mem_cons_of_mem _ (b h), fun h => List.mem_cons_of_mem _ (c h)⟩
+  case case6 x0 xs y0 ys gc hne hnlt ih =>
+    have hys := C01.sorted_cons hs2
+    have hxs := C01.sorted_cons hs1
+    have hy' : y ∈ ys := by
+      rcases List.mem_cons.mp hy with rfl | hy'
+      · exfalso
+        have hxm : x ∈ x0 :: xs := List.mem_of_getElem? hx
+        rcases List.mem_cons.mp hxm with rfl | hxm'
+        · exact hne heq
+        · have := hxs.2 x hxm'; omega
+      · exact hy'
+    exact ih hs1 hys.1 (Or.inl rfl) k hx hy'
+  case case7 x0 xs y0 ys gc st hne hnlt hst' =>
+    exfalso
+    rcases hst with h | h
+    · exact hst' h
+    · have := h x0 (by simp) y0 (by simp); omega
+
+omit [Scalar W] in
+/-- without a same-link conflict among the plan's origins nothing is dropped -/
+theorem spKeep_all (seen : List (Int × Int × Bool)) (os : List (Origin W))
+    (hd : (os.map Origin.link).Pairwise (· ≠ ·)) (hs : ∀ o ∈ os, o.link ∉ seen) : spKeep seen os = os := by
+  induction os generalizing seen with
+  | nil => rfl
+  | cons o os ih =>
+    simp only [List.map_cons, List.pairwise_cons] at hd
+    have h0 : o.link ∉ seen := hs o (by simp)
+    simp only [spKeep, h0, ↓reduceIte]
+    congr 1
+    refine ih _ hd.2 ?_
+    intro o' ho' hm
+    rcases List.mem_append.mp hm with hm | hm
+    · exact hs o' (by simp [ho']) hm
+    · simp only [List.mem_singleton] at hm
+      exact hd.1 _ (List.mem_map_of_mem ho') hm.symm
+
+omit [Scalar W] in
+theorem spKeep_sub (seen : List (Int × Int × Bool)) (os : List (Origin W)) : ∀ o ∈ spKeep seen os, o ∈ os := by
+  induction os generalizing seen with
+  | nil => intro o ho; simp [spKeep] at ho
+  | cons o os ih =>
+    intro o' ho'
+    simp only [spKeep] at ho'
+    split at ho'
+    · exact List.mem_cons_of_mem _ (ih _ o' ho')
+    · rcases List.mem_cons.mp ho' with rfl | h
+      · simp
+      · exact List.mem_cons_of_mem _ (ih _ o' h)
 
 end GoNeat.C04
